@@ -303,15 +303,24 @@ Fixpoint emb (t : tree) : utree :=
   | TMul t k => UTimes (emb t) k
   end.
 
-(* ---- boolean comparison with what the implementation holds at the end of a history ---- *)
+(* ---- boolean comparison with what the implementation holds at the end of a history ----
+   C16 fixes the MEANING of a normal form and that it has no zero / negative coefficient and no
+   variable twice - not the order of its terms: term lists are compared as sets (the model's side is
+   in normal form, so equal sizes and mutual inclusion make the other side a permutation of it) *)
+Definition terms_seteqb (a b : list term) : bool :=
+  Nat.eqb (List.length a) (List.length b) &&
+  forallb (fun t => existsb (term_eqb t) b) a && forallb (fun t => existsb (term_eqb t) a) b.
+Definition expr_seteqb (a b : expr) : bool := Z.eqb (ec a) (ec b) && terms_seteqb (et a) (et b).
+Definition ineq_seteqb (a b : ineq) : bool :=
+  terms_seteqb (il a) (il b) && Z.eqb (ir a) (ir b) && cmp_eqb (iop a) (iop b).
 Definition value_eqb (x y : pyval) : bool :=
   match x, y with
   | VInt a, VInt b => Z.eqb a b
   | VStr a, VStr b => String.eqb a b
   | VLit v s, VLit w r => String.eqb v w && Bool.eqb s r
   | VTerm v s k, VTerm w r c => String.eqb v w && Bool.eqb s r && Z.eqb k c
-  | VExpr e, VExpr f => expr_eqb e f
-  | VIneq i, VIneq j => ineq_eqb i j
+  | VExpr e, VExpr f => expr_seteqb e f
+  | VIneq i, VIneq j => ineq_seteqb i j
   | VNone, VNone => true
   | _, _ => false
   end.
